@@ -179,14 +179,22 @@ def run_history(rec, case):
     rng = gen.mkrng('c03', case['seed'], case['i'])
     srv = case.get('srv') or rng.choice(['T', 'A'])
     rec.evaluations += 1
-    sim = scen.make_sim(srv, policy='random', seed=rng.randrange(1 << 30),
+    # the inbound size limit says nothing about what the server sends: a
+    # share of the histories runs with a limit smaller than two queued
+    # messages (the reference client's own frames are at most 6 characters)
+    skw = {}
+    if rng.random() < 0.3:
+        skw['max_http_buffer_size'] = rng.choice([8, 16, 40])
+        rec.count('small_inbound_limit_histories')
+    sim = scen.make_sim(srv, server_kwargs=skw, policy='random',
+                        seed=rng.randrange(1 << 30),
                         yield_prob=rng.choice([0.0, 0.2, 0.5]),
                         ws_close_mode=rng.choice(['none', 'raise']))
     R = hist.Runner(sim)
 
     def V(key, msg):
-        rec.viol(key, msg + ' | server=%s history=%s' % (srv, R.witness(40)),
-                 case)
+        rec.viol(key, msg + ' | server=%s config=%r history=%s' % (
+            srv, skw, R.witness(40)), case)
     try:
         modes = [rng.choice(MODES) for _ in range(rng.randint(1, 3))]
         plan = []
